@@ -36,15 +36,19 @@ import (
 
 // Beh is one answer of the delivery target (or of the path to it).
 type Beh struct {
-	Kind   string `json:"kind"` // status | transport | eof | deadline | deadline-bare | hang | policy | policy-bare | policy-url
+	Kind   string `json:"kind"` // status | transport | eof | deadline | deadline-bare | hang | policy | policy-bare | policy-url | chain
 	Code   int    `json:"code,omitempty"`
 	SlowMS int    `json:"slow_ms,omitempty"` // the answer arrives after that much virtual time
+	Chain  string `json:"chain,omitempty"`   // kind chain (part h, redir_test.go): what each URL of a redirect walk answers
 }
 
 func (b Beh) String() string {
 	s := b.Kind
 	if b.Kind == "status" {
 		s = fmt.Sprintf("%d", b.Code)
+	}
+	if b.Kind == "chain" {
+		s = "[" + b.Chain + "]"
 	}
 	if b.SlowMS > 0 {
 		s += fmt.Sprintf("~%dms", b.SlowMS)
@@ -109,6 +113,9 @@ type behKey struct{}
 type scriptTransport struct{}
 
 func (scriptTransport) RoundTrip(req *http.Request) (*http.Response, error) {
+	if cr, ok := req.Context().Value(chainKey{}).(*chainRun); ok {
+		return cr.roundTrip(req) // part h: the several hosts a redirect chain walks over
+	}
 	b, _ := req.Context().Value(behKey{}).(Beh)
 	if req.Body != nil {
 		io.Copy(io.Discard, req.Body)
@@ -153,10 +160,16 @@ type Tgt struct {
 	Timeout string `json:"timeout"`
 	Route   string `json:"route,omitempty"` // route the block is written in ("" = routePath)
 	Kind    string `json:"kind,omitempty"`  // label of the setting kind (parts f/g), no meaning for the run
+	Scheme  string `json:"scheme,omitempty"` // "" = http
 	Rev     bool   `json:"rev,omitempty"`   // written in the opposite order (timeout first, retry keywords jitter..max)
 }
 
-func (t Tgt) URL() string { return "http://" + okHost + t.Path }
+func (t Tgt) URL() string {
+	if t.Scheme != "" {
+		return t.Scheme + "://" + okHost + t.Path
+	}
+	return "http://" + okHost + t.Path
+}
 
 const routePath = "/r"
 
@@ -213,6 +226,11 @@ func bootWorld(text string) (*World, error) {
 	d := a.VerifDispatcher(&http.Client{Transport: scriptTransport{}})
 	a.Shutdown()
 	os.RemoveAll(dir)
+	if hd, ok := d.Deliverer.(*dispatcher.HTTPDeliverer); ok {
+		// no DNS inside a bubble: whatever the egress check wants resolved comes from a fixed table (redir_test.go).
+		// Only policies with CIDR rules or dns_rebind_protection (part h) ask at all.
+		hd.Resolver = redirResolver{}
+	}
 	w := &World{DSL: text, Routes: d.Routes, HTTP: d.Deliverer}
 	worldCache[text] = w
 	return w, nil
@@ -246,6 +264,7 @@ type Send struct {
 	ActAt     time.Time               `json:"act_at"`
 	ActErr    string                  `json:"act_err,omitempty"`
 	Cycle     int                     `json:"cycle"`
+	Wire      []WireReq               `json:"wire,omitempty"` // kind chain: every request the in-memory network saw during this send
 	lease     string
 }
 
@@ -485,6 +504,7 @@ func (s *scripted) Deliver(ctx context.Context, d dispatcher.Delivery) dispatche
 
 	start := time.Now()
 	var res dispatcher.Result
+	var cr *chainRun
 	if s.inner == nil {
 		res = directResult(ctx, b, d.URL)
 	} else {
@@ -495,7 +515,12 @@ func (s *scripted) Deliver(ctx context.Context, d dispatcher.Delivery) dispatche
 			u.Host = deniedHost
 			d.URL = u.String()
 		}
-		res = s.inner.Deliver(context.WithValue(ctx, behKey{}, b), d)
+		cctx := context.WithValue(ctx, behKey{}, b)
+		if b.Kind == "chain" {
+			cr = newChainRun(b.Chain, d.URL)
+			cctx = context.WithValue(cctx, chainKey{}, cr)
+		}
+		res = s.inner.Deliver(cctx, d)
 	}
 	end := time.Now()
 
@@ -505,6 +530,9 @@ func (s *scripted) Deliver(ctx context.Context, d dispatcher.Delivery) dispatche
 		x.Delivers++
 		if !x.Delivered {
 			x.Delivered, x.Beh, x.Start, x.End = true, b, start, end
+			if cr != nil {
+				x.Wire = cr.seen()
+			}
 		}
 	}
 	s.rec.mu.Unlock()
@@ -541,6 +569,7 @@ type Spec struct {
 	MaxPerLife int     `json:"max_per_life"` // runaway guard (sends per message and cycle)
 	DrainAtMS  int     `json:"drain_at_ms"`  // >0: Drain is called at that virtual time instead of at the end of the history
 
+	Egress   string `json:"egress,omitempty"`    // part h: "<policy>/<on|off|unset>" = egress block of redirPolicies + the redirects line ("" = the block of parts a-g)
 	Defaults *Tgt   `json:"defaults,omitempty"`  // written defaults.deliver block (nil: none written; empty fields: not written)
 	Burst    *Burst `json:"burst,omitempty"`     // other traffic through the same store (part f)
 	Restart  string `json:"restart,omitempty"`   // operator action that starts the new cycle: "" = requeue-dead | requeue-messages | requeue-filter | cancel-resume
